@@ -124,6 +124,42 @@ def opNdl (j : Json) : M Json := do
   | .error e => pure (jErr e)
   | .ok (w, n) => pure ((lwJson w).setObjVal! "n_events" (jNat n))
 
+/-- op queue_trace: replay an observed history of the work-queue protocol
+    through the Lean transition system -/
+def opQueueTrace (j : Json) : M Json := do
+  let p ← getNat j "parts"
+  let t ← getNat j "threads"
+  let tr ← getArr j "trace"
+  let acts ← tr.toList.mapM (fun a => do
+    let a ← asArr a
+    match a.toList with
+    | [k, th] =>
+      let k ← asStr k
+      let th ← asNat th
+      match k with
+      | "take" => pure (QAction.take th)
+      | "exit" => pure (QAction.exit th)
+      | "finish" => pure (QAction.finish th)
+      | _ => .error "bad action"
+    | _ => .error "bad action")
+  let s0 := qInit p t
+  match qRun s0 acts with
+  | none =>
+    let i := (qFirstRejected s0 acts).getD 0
+    pure (Json.mkObj [("accepted", Json.bool false), ("first_rejected", jNat i)])
+  | some s =>
+    pure (Json.mkObj [("accepted", Json.bool true), ("final", Json.bool (qFinal s)),
+                      ("taken", jNats s.taken), ("measure_left", jNat (qMeasure s)),
+                      ("bound", jNat (2 * p + t))])
+
+/-- op partition: both partitioners on `List.range n` -/
+def opPartition (j : Json) : M Json := do
+  let n ← getNat j "n"
+  let c ← getNat j "chunk"
+  let xs := List.range n
+  pure (Json.mkObj [("slice_list", Json.arr ((sliceList xs c).map jNats).toArray),
+                    ("omp_parts", Json.arr ((ompParts xs c).map jNats).toArray)])
+
 def handle (j : Json) : M Json := do
   let op ← getStr j "op"
   match op with
@@ -131,6 +167,8 @@ def handle (j : Json) : M Json := do
   | "dict_ndl" => opDictNdl j
   | "rw_spec" => opRwSpec j
   | "ndl" => opNdl j
+  | "queue_trace" => opQueueTrace j
+  | "partition" => opPartition j
   | _ => .error s!"unknown op {op}"
 
 end PyndlDriver
